@@ -49,7 +49,7 @@ fn res<T>(op: &'static str, f: impl FnOnce() -> (Option<Complex<T>>, Option<Comp
     match guarded(f) { Ok((r, rb, rs)) => Res { op, panic: false, r, rb, rs }, Err(_) => Res { op, panic: true, r: None, rb: None, rs: None } }
 }
 /// every operator variant of Complex<T> on the pair (z, w); the real scalar is w.real
-fn pair_ops<T: Clone + Number + Signed>(z: &Complex<T>, w: &Complex<T>) -> Vec<Res<T>> {
+fn pair_ops<T: Clone + Number + Signed + Send + Sync>(z: &Complex<T>, w: &Complex<T>) -> Vec<Res<T>> {
     let s = w.real.clone();
     let mut v = Vec::new();
     v.push(res("add", || (Some(z.clone() + w.clone()), None, None)));
@@ -75,7 +75,7 @@ fn pair_ops<T: Clone + Number + Signed>(z: &Complex<T>, w: &Complex<T>) -> Vec<R
     v
 }
 /// zero(), one() and the six identity expressions that must return z
-fn ident_ops<T: Clone + Number + Signed>(z: &Complex<T>) -> Result<(Complex<T>, Complex<T>, Vec<Complex<T>>), String> {
+fn ident_ops<T: Clone + Number + Signed + Send + Sync>(z: &Complex<T>) -> Result<(Complex<T>, Complex<T>, Vec<Complex<T>>), String> {
     guarded(|| {
         let zero = Complex::<T>::zero(); let one = Complex::<T>::one();
         let same = vec![z.clone() + zero.clone(), zero.clone() + z.clone(), z.clone() - zero.clone(),
@@ -84,7 +84,7 @@ fn ident_ops<T: Clone + Number + Signed>(z: &Complex<T>) -> Result<(Complex<T>, 
     })
 }
 fn cmp_name(o: Option<Ordering>) -> &'static str { match o { Some(Ordering::Less) => "lt", Some(Ordering::Equal) => "eq", Some(Ordering::Greater) => "gt", None => "none" } }
-fn cmp3<T: Clone + Number + PartialOrd>(z: &Complex<T>, w: &Complex<T>, v: &Complex<T>, e: &mut Value) {
+fn cmp3<T: Clone + Number + PartialOrd + Send + Sync>(z: &Complex<T>, w: &Complex<T>, v: &Complex<T>, e: &mut Value) {
     let r = guarded(|| (cmp_name(z.partial_cmp(w)), cmp_name(w.partial_cmp(z)), cmp_name(w.partial_cmp(v)), cmp_name(z.partial_cmp(v)),
                         z < w, z == w, z > w, z <= w, z >= w, z != w));
     match r {
